@@ -348,6 +348,13 @@ func setDefaultRoomVersionFromJoinEvent(
 // isWellFormedJoinMemberEvent returns true if the event looks like a legitimate
 // membership event.
 func isWellFormedJoinMemberEvent(event PDU, roomID *spec.RoomID, senderID spec.SenderID) bool { // nolint: interfacer
+	// Membership() only looks at the content: an event of any type can carry a "membership" key.
+	if event.Type() != spec.MRoomMember {
+		return false
+	}
+	if event.SenderID() != senderID {
+		return false
+	}
 	if membership, err := event.Membership(); err != nil {
 		return false
 	} else if membership != spec.Join {
